@@ -36,10 +36,20 @@ func runC18(s *core.Sim, tier string) RunInfo {
 	ln := 1 + uint64(s.Tape.Draw("len", int(maxL)))
 	to := fromH + ln + 1
 	top := to + uint64(s.Tape.Draw("extra", 5))
+	// earlier requests on the same Exchange (peer scores and sessions have a history): ranges
+	// above what most lagging peers hold, so that those answer NOT_FOUND again and again
+	warm := s.Tape.Biased("warm-up-requests", 4, 2)
+	warmFrom := top
+	if warm > 0 {
+		top += 12
+	}
 	capable := 1 + s.Tape.Draw("capable", np) // this one holds everything and is fault-free
 	rng := s.Sub("servers")
 	var desc []string
 	var idx []int
+	heads := make([]uint64, np+1)
+	servers := make([]*XServer, np+1)
+	var capableFaultArmed bool // the capable peer times out once from now on (final request only)
 	for i := 1; i <= np; i++ {
 		idx = append(idx, i)
 		head := top
@@ -58,11 +68,18 @@ func runC18(s *core.Sim, tier string) RunInfo {
 			return RunInfo{}
 		}
 		desc = append(desc, fmt.Sprintf("peer%d has 1..%d fault=%s", i, head, fault))
+		heads[i], servers[i] = head, xs
 		n := 0
 		f := fault
+		isCapable := i == capable
 		xs.Rec.Delay = func(call string) time.Duration {
 			n++
 			base := time.Duration(5+rng.Draw("svc-ms", 40)) * time.Millisecond
+			if isCapable && capableFaultArmed {
+				capableFaultArmed = false
+				s.Fault("capable-peer-times-out-once")
+				return timeout + 200*time.Millisecond
+			}
 			switch f {
 			case "timeout-once":
 				if n == 1 {
@@ -79,11 +96,59 @@ func runC18(s *core.Sim, tier string) RunInfo {
 		s.Aborted = "client start: " + err.Error()
 		return RunInfo{}
 	}
+	for k := 0; k < warm && !s.Failed(); k++ {
+		wf := warmFrom + uint64(s.Tape.Draw("warm-from", 4))
+		wl := 1 + uint64(s.Tape.Draw("warm-len", 6))
+		wt := wf + wl + 1
+		if wt-1 > top {
+			wt = top + 1
+		}
+		var wgot []*H
+		var werr error
+		wb := 20 * (timeout + 500*time.Millisecond)
+		_, fin := s.Do("warm-up-range", wb+5*time.Second, func() {
+			ctx, cancel := context.WithTimeout(context.Background(), wb)
+			defer cancel()
+			wgot, werr = w.Ex.GetRangeByHeight(ctx, w.Ch.At(wf), wt)
+		})
+		desc = append(desc, fmt.Sprintf("earlier request (%d:%d)", wf, wt))
+		if !fin || werr != nil || uint64(len(wgot)) != wt-wf-1 {
+			s.Violate("honest-range-failed", map[string]string{"phase": "warm-up"}, "earlier GetRangeByHeight(%d,%d) on the same Exchange: finished=%v err=%v len=%d although peer%d holds everything and is healthy [%v chunk=%d]", wf, wt, fin, werr, len(wgot), capable, desc, chunk)
+			return RunInfo{Nontrivial: true, StateKey: fmt.Sprint(desc, chunk), Evals: 1}
+		}
+		s.Probe("earlier-request-on-same-exchange")
+	}
+	// the peer that holds everything may itself hiccup once in the judged request, as long as
+	// another honest peer holds the whole requested range: together they still hold it
+	capableDrops := false
+	alt := 0 // the peer that stays healthy and connected when the one holding everything hiccups
+	for i := 1; i <= np; i++ {
+		if i != capable && heads[i] >= to-1 && s.Tape.Coin("capable-hiccups", 1, 3) {
+			alt = i
+			if s.Tape.Coin("hiccup-is-disconnect", 1, 2) {
+				capableDrops = true
+				desc = append(desc, fmt.Sprintf("peer%d (holds everything) loses its connection once; peer%d holds the range too", capable, i))
+			} else {
+				capableFaultArmed = true
+				desc = append(desc, fmt.Sprintf("peer%d (holds everything) times out once; peer%d holds the range too", capable, i))
+			}
+			break
+		}
+	}
 	// optional disconnect / reconnect of a non-capable peer while the request runs
 	var side []*core.Task
+	if capableDrops {
+		side = append(side, s.Go("disconnect-capable", func() {
+			s.YieldAfter("net:disconnect", time.Duration(s.Tape.Draw("cdisc-ms", 60))*time.Millisecond)
+			_ = w.Net.DisconnectPeers(w.Hosts[0].ID(), w.Hosts[capable].ID())
+			s.Fault("capable-peer-disconnect")
+			s.YieldAfter("net:reconnect", time.Duration(50+s.Tape.Draw("creconn-ms", 500))*time.Millisecond)
+			_, _ = w.Net.ConnectPeers(w.Hosts[0].ID(), w.Hosts[capable].ID())
+		}))
+	}
 	if np > 1 && s.Tape.Coin("disconnect", 1, 3) {
 		victim := 1 + s.Tape.Draw("victim", np)
-		if victim != capable {
+		if victim != capable && victim != alt {
 			desc = append(desc, fmt.Sprintf("peer%d disconnects and reconnects", victim))
 			side = append(side, s.Go("disconnect", func() {
 				s.YieldAfter("net:disconnect", time.Duration(s.Tape.Draw("disc-ms", 200))*time.Millisecond)
